@@ -16,7 +16,7 @@ use serde_json::json;
 use std::collections::HashMap;
 
 pub const CLIB: &str = "(define-library (clib)
-  (export next (rename peek look) readg setn!)
+  (export next (rename peek look) readg setn! (rename raw-step step) use-step (rename sa sb) (rename sb sa))
   (import (scheme base))
   (begin
     (define n 0)
@@ -24,7 +24,12 @@ pub const CLIB: &str = "(define-library (clib)
     (define (next) (h))
     (define (peek) n)
     (define (readg) g)
-    (define (setn! v) (set! n v) n)))";
+    (define (setn! v) (set! n v) n)
+    (define (step) 'internal-step)
+    (define (raw-step) 'raw-step)
+    (define (use-step) (step))
+    (define sa 'internal-sa)
+    (define sb 'internal-sb)))";
 
 pub const MLIB: &str = "(define-library (mlib)
   (export bump (rename helper mhelper))
@@ -45,9 +50,9 @@ fn libdefs() -> HashMap<&'static str, LibDef> {
     m.insert(
         "clib",
         LibDef {
-            exports: vec![("next", "next"), ("peek", "look"), ("readg", "readg"), ("setn!", "setn!")],
+            exports: vec![("next", "next"), ("peek", "look"), ("readg", "readg"), ("setn!", "setn!"), ("raw-step", "step"), ("use-step", "use-step"), ("sa", "sb"), ("sb", "sa")],
             imports: vec![],
-            body: parse_all("(define n 0) (define (h) (set! n (+ n 1)) n) (define (next) (h)) (define (peek) n) (define (readg) g) (define (setn! v) (set! n v) n)"),
+            body: parse_all("(define n 0) (define (h) (set! n (+ n 1)) n) (define (next) (h)) (define (peek) n) (define (readg) g) (define (setn! v) (set! n v) n) (define (step) 'internal-step) (define (raw-step) 'raw-step) (define (use-step) (step)) (define sa 'internal-sa) (define sb 'internal-sb)"),
         },
     );
     m.insert(
@@ -105,7 +110,7 @@ pub fn configs() -> Vec<Config> {
         out.push(Config {
             name: "P->L twice",
             import: "(import (scheme base) (only (clib) next readg) (rename (except (clib) readg) (next next2) (look look2) (setn! setn2!)))",
-            sets: vec![("clib", Some(vec![("next", "next"), ("readg", "readg")])), ("clib", Some(vec![("next", "next2"), ("look", "look2"), ("setn!", "setn2!")]))],
+            sets: vec![("clib", Some(vec![("next", "next"), ("readg", "readg")])), ("clib", Some(vec![("next", "next2"), ("look", "look2"), ("setn!", "setn2!"), ("step", "step"), ("use-step", "use-step"), ("sa", "sa"), ("sb", "sb")]))],
             file_supply,
         });
         out.push(Config { name: "P->M then P->L", import: "(import (scheme base) (mlib) (clib))", sets: vec![("mlib", None), ("clib", None)], file_supply });
@@ -130,7 +135,7 @@ pub const OPS: &[&str] = &[
     "(set! look (lambda () 'importer-look))",
 ];
 
-pub const PROBES: &[&str] = &["h", "n", "g", "peek", "helper", "(readg)", "(look)", "(look2)", "(mhelper)", "(next)", "(bump)", "(next2)", "(look)"];
+pub const PROBES: &[&str] = &["h", "n", "g", "peek", "helper", "(step)", "(use-step)", "sa", "sb", "raw-step", "(readg)", "(look)", "(look2)", "(mhelper)", "(next)", "(bump)", "(next2)", "(look)"];
 
 pub struct Sys {
     cfg: usize,
